@@ -263,9 +263,11 @@ def abnormal_match(rng):
 class C01(Check):
     id = "C01"
     prop_module = "PoxModel.Properties.C01"
+    extra_modules = ["PoxModel.Properties.C01Framing"]      # C01 ∘ C02: the generated decoders satisfy the framing theorems' decoder hypothesis
     lean_targets = ["drv_c01"]
     driver = "drv_c01"
-    theorems = ["Pox.C01.pack_eq_unpack", "Pox.C01.pack_eq_spec", "Pox.C01.len_eq", "Pox.C01.untranslated_pinned",
+    theorems = ["Pox.C01F.messages_ok", "Pox.C01F.codec_message_wf", "Pox.C01F.codec_stream_framing",
+                "Pox.C01.pack_eq_unpack", "Pox.C01.pack_eq_spec", "Pox.C01.len_eq", "Pox.C01.untranslated_pinned",
                 "Pox.C01.irregular_pinned", "Pox.C01.registry_messages", "Pox.C01.registry_actions", "Pox.C01.registry_stats",
                 "Pox.C01.registry_queue_props", "Pox.C01.registry_total", "Pox.C01.roundtrip", "Pox.C01.actions_stream",
                 "Pox.C01.uncovered_pinned", "Pox.C01.packet_out_roundtrip", "Pox.C01.flow_mod_data_roundtrip",
